@@ -72,7 +72,9 @@ def run(prop, tier, replay):
             for (i, op, inv, cls) in sorted(extra):
                 after = s["recreate"] and any(st["op"] == "drop_table" for st in s["steps"][:i])
                 bad += 1
-                out.report({"invariant": "CacheTransparent", "via": inv, "class": "after-recreate" if after else "same-incarnation"},
+                sig = {"invariant": "CacheTransparent", "class": "after-recreate"} if after else \
+                    {"invariant": "CacheTransparent", "class": "same-incarnation", "via": inv}
+                out.report(sig,
                            f"{inv} violated by {op} only when reading through a session ({s['variant']} cache), "
                            f"{'after drop + re-create at the same location' if after else 'within one table incarnation'}",
                            {"scenario": s, "step": i, "without_session": sorted(base_v)})
